@@ -645,6 +645,9 @@ namespace
 
     std::vector <std::unique_ptr <value_die>> m_next;
 
+    // Size of M_NEXT when M_DIE was taken from it.
+    size_t m_base;
+
     void
     schedule (Dwarf_Attribute &at)
     {
@@ -655,8 +658,13 @@ namespace
       if (dwarf_formref_die (&at, &die_mem) == nullptr)
 	throw_libdw ();
 
-      m_next.push_back
-	(std::make_unique <value_die> (m_dwctx, die_mem, 0, m_doneness));
+      // Like find_attribute, look through DW_AT_specification before
+      // DW_AT_abstract_origin, whatever order the two are stored in.
+      auto v = std::make_unique <value_die> (m_dwctx, die_mem, 0, m_doneness);
+      if (at.code == DW_AT_specification)
+	m_next.push_back (std::move (v));
+      else
+	m_next.insert (m_next.begin () + m_base, std::move (v));
     }
 
     bool
@@ -667,6 +675,7 @@ namespace
 
       m_die = std::move (m_next.back ());
       m_next.pop_back ();
+      m_base = m_next.size ();
       m_it = attr_iterator {&m_die->get_die ()};
       return true;
     }
@@ -684,6 +693,7 @@ namespace
       , m_i {0}
       , m_doneness {value->get_doneness ()}
       , m_secondary {false}
+      , m_base {0}
     {
       m_next.push_back (std::move (value));
       next_die ();
@@ -1471,25 +1481,30 @@ or replaced since the Dwarf was opened.
 }
 
 
+namespace
+{
+  enum class find_attribute_result
+    {
+      not_found = 0,
+      found,
+      found_integrated,
+    };
+
+  std::pair <find_attribute_result, std::unique_ptr <value_die>>
+  find_attribute (Dwarf_Die die, int atname, doneness d,
+		  Dwarf_Attribute *ret_at,
+		  std::shared_ptr <dwfl_context> dwctx);
+}
+
 std::unique_ptr <value_str>
 op_name_die::operate (std::unique_ptr <value_die> a) const
 {
-  if (a->is_cooked ())
-    {
-      // On cooked DIE's, `name` integrates.
-      const char *name = dwarf_diename (&a->get_die ());
-      if (name != nullptr)
-	return std::make_unique <value_str> (name, 0);
-      else
-	return nullptr;
-    }
-  // Unfortunately there's no non-integrating dwarf_diename
-  // counterpart.
-  else if (dwarf_hasattr (&a->get_die (), DW_AT_name))
-    {
-      Dwarf_Attribute attr = dwpp_attr (a->get_die (), DW_AT_name);
-      return std::make_unique <value_str> (dwpp_formstring (attr), 0);
-    }
+  // On cooked DIE's, `name` integrates the same way @AT_name does.
+  Dwarf_Attribute attr;
+  if (find_attribute (a->get_die (), DW_AT_name, a->get_doneness (),
+		      &attr, nullptr).first
+      != find_attribute_result::not_found)
+    return std::make_unique <value_str> (dwpp_formstring (attr), 0);
   else
     return nullptr;
 }
@@ -1695,13 +1710,6 @@ Takes an attribute on TOS and yields a cooked version thereof.
 
 namespace
 {
-  enum class find_attribute_result
-    {
-      not_found = 0,
-      found,
-      found_integrated,
-    };
-
   // Return whether the attribute was found.
   //
   // If found or found_integrated, and if RET is non-nullptr, prime
